@@ -202,6 +202,17 @@ def make_store_contracts(flavour):
     AddBlank.__name__ = f'StoreAddBlankNode_{flavour}'
     out.append(AddBlank)
 
+    def with_any_valued_property(g, w):
+        """the first node of the cloned graph carries a property whose value may be an int, a string or a boolean -- in
+        particular 0, '' and False (set, but falsy)"""
+        G = w.store_graph if flavour == 'shared' else w.per_graph.get('A')
+        if G is None:
+            return
+        for n in g_nodes(G):
+            if g_attr(G, n, 'GraphID') is w.gA:
+                g_attrs(G, n).e['Count'] = [True, g.U('count', ('int', 'str', 'bool'))]
+                return
+
     class Clone(Contract):
         target = TP + 'clone_graph'
         extra_targets = (T + 'extract_graph', T + 'add_graph')
@@ -212,6 +223,7 @@ def make_store_contracts(flavour):
 
         def inputs(self, g):
             w = gen_shared_world(g, slack=True) if flavour == 'shared' else gen_disjoint_world(g)
+            with_any_valued_property(g, w)
             gC = g.atom('gC')
             g.assume(z3.And(gC.t != w.gA.t, gC.t != w.gB.t))
             return [handle(w, w.gA)], dict(new_graph_id=gC)
